@@ -231,6 +231,36 @@ def session_c09(rng, fens, directed=None):
         e.kill()
 
 
+def session_continuation(rng, fens):
+    """search a position, then step along the reported principal variation and ask for a move with the smallest
+    budgets at each step: the cache then holds entries for exactly these positions"""
+    e = Engine()
+    try:
+        fen = rng.choice(fens)
+        e.send('position fen ' + fen)
+        e.send('go depth %d' % rng.choice([2, 3, 3]))
+        if e.wait_for('bestmove', 60000) is None:
+            e.log({'ev': 'deadline', 'what': 'bestmove', 't': e.now()})
+            return e.events
+        pvs = [x['pv'] for x in e.events if x.get('ev') == 'recv' and x.get('kind') == 'info' and x.get('pv')]
+        pv = [''.join(t) for t in (pvs[-1] if pvs else [])]
+        for k in range(1, len(pv) + 1):
+            e.send('position fen %s moves %s' % (fen, ' '.join(pv[:k])))
+            e.send('go ' + rng.choice(ZERO_BUDGETS))
+            if e.wait_for('bestmove', 5000) is None:
+                e.log({'ev': 'deadline', 'what': 'bestmove', 't': e.now()})
+                return e.events
+        e.send('isready')
+        if e.wait_for('readyok', 2500) is None:
+            e.log({'ev': 'deadline', 'what': 'readyok', 't': e.now()})
+            return e.events
+        e.send('quit')
+        e.wait_exit(2500)
+        return e.events
+    finally:
+        e.kill()
+
+
 def session_c10(rng, fens):
     """free-running stress: go/stop/go with no sleeps, stop at random moments, commands during search"""
     e = Engine()
@@ -292,7 +322,11 @@ def session_hammer(rng, fens):
     """a stop at a random moment of a running search, many times over"""
     e = Engine()
     try:
-        if rng.random() < 0.7:
+        # dense positions are used only where a stop ends the search (a depth limit alone may take very long there)
+        dense = gen_seeds.read('dense.fen')
+        if dense and rng.random() < 0.2:
+            e.send('position fen ' + rng.choice(dense))      # long capture sequences: the stop must be seen there too
+        elif rng.random() < 0.7:
             e.send('position fen ' + rng.choice(fens))
         for _ in range(12):
             e.send('go infinite')
@@ -573,6 +607,9 @@ def run_process_level(prop, tier, seed, verdict, cov):
     if prop == 'C09':
         dirs = fens if tier == 'thorough' else random.Random(seed).sample(fens, min(len(fens), 60))
         jobs += [((lambda f: session_c09(random.Random(seed), fens, directed=f)), f) for f in dirs]
+    if prop == 'C09':
+        nc = 60 if tier == 'quick' else 3000
+        jobs += [((lambda s: session_continuation(random.Random(s), fens)), rng.randrange(1 << 30)) for _ in range(nc)]
     if prop == 'C15':
         sysl = systematic_lines()
         jobs += [((lambda ls: session_c15(random.Random(seed), fens, lines=ls)), sysl[i:i + 12]) for i in range(0, len(sysl), 12)]
